@@ -108,10 +108,13 @@ def emptySt : St V := { store := fun _ => none, mem := fun _ => none, runs := []
 
 /-! ## construction -/
 
-/-- a declared parameter or input: name and optional default -/
+/-- a declared parameter or input: name, optional default and — for a parameter — the key under
+which its value is looked up in the config (`Parameter.name_in_config`, the name unless declared
+otherwise; unused for inputs) -/
 structure Decl (V : Type) where
   name : Str
   default : Option V
+  key : Str := name
 
 structure Cls (V : Type) where
   slug : Str
@@ -143,9 +146,9 @@ def collect {α β} (h : α → Except Err β) : List α → Except Err (List β
       | .ok l => .ok (b :: l)
       | .error e => .error e
 
-/-- the value a parameter receives: from `parameters`, else its default -/
+/-- the value a parameter receives: from `parameters` (under its `name_in_config`), else its default -/
 def paramValue (given : List (Str × V)) (d : Decl V) : Option V :=
-  match lookupS d.name given with
+  match lookupS d.key given with
   | some v => some v
   | none => d.default
 
